@@ -244,7 +244,12 @@ func (ex *Exec) mapInfo(m Val) (*types.Map, string, string) {
 
 func (ex *Exec) mapDom(st *State, m Val) string {
 	_, mk, ks := ex.mapInfo(m)
-	return st.read("Mdom."+mk, "(Array "+ks+" Bool)", m.T)
+	d := st.read("Mdom."+mk, "(Array "+ks+" Bool)", m.T)
+	if isFreshRef(m.T) {
+		return d
+	}
+	// the nil map is empty
+	return "(ite (= " + m.T + " 0) ((as const (Array " + ks + " Bool)) false) " + d + ")"
 }
 
 // mapValArrays lists (arrayName, sort, fieldIndexPath) for the value type
@@ -322,7 +327,7 @@ func (ex *Exec) mapDelete(st *State, m Val, k Val) {
 
 func (ex *Exec) mapLen(st *State, m Val) string {
 	_, mk, ks := ex.mapInfo(m)
-	ln := st.bind("mlen", "Int", st.read("Mlen."+mk, "Int", m.T))
+	ln := st.bind("mlen", "Int", "(ite (= "+m.T+" 0) 0 "+st.read("Mlen."+mk, "Int", m.T)+")")
 	dom := ex.mapDom(st, m)
 	st.assume("(>= " + ln + " 0)")
 	st.assume("(= (= " + ln + " 0) (forall ((k " + ks + ")) (not (select " + dom + " k))))")
